@@ -243,6 +243,11 @@ def binop(interp, op, a, b):
     path = interp.path
     if isinstance(a, Unknown) or isinstance(b, Unknown):
         raise OutOfSubset("arithmetic on unknown value")
+    if isinstance(a, VObj):
+        # user-defined operator (`__or__`, `__add__` ...) of a repository class: dispatch to the method, as Python does
+        dunder = {ast.BitOr: "__or__", ast.BitAnd: "__and__", ast.Add: "__add__", ast.Sub: "__sub__", ast.Mult: "__mul__"}.get(type(op))
+        if dunder and a.cls.find_method(dunder):
+            return interp.call(interp.getattr(a, dunder), [b], {})
     if not is_sym(a) and not is_sym(b) and not isinstance(a, (SymSeq,)) and not isinstance(b, (SymSeq,)):
         return native_binop(interp, op, a, b)
     ka, kb = kind(a), kind(b)
